@@ -12,9 +12,9 @@ echo "== patch: $(wc -l < "$d/patch.diff") lines, files: $(git -C "$wt" diff --s
 echo "== demo WITH change"
 (cd "$wt" && PYTHONPATH="$wt/src" timeout 600 /venv/bin/python demo.py > "$d/demo_with.out" 2>&1; echo "exit=$?" >> "$d/demo_with.out"); tail -4 "$d/demo_with.out" | cut -c1-300
 echo "== demo WITHOUT change"
-git -C "$wt" stash -q
+git -C "$wt" apply -R "$d/patch.diff" || { echo "cannot revert patch"; exit 2; }
 (cd "$wt" && PYTHONPATH="$wt/src" timeout 600 /venv/bin/python demo.py > "$d/demo_without.out" 2>&1; echo "exit=$?" >> "$d/demo_without.out"); tail -2 "$d/demo_without.out" | cut -c1-300
-git -C "$wt" stash pop -q
+git -C "$wt" apply "$d/patch.diff" || { echo "cannot re-apply patch"; exit 2; }
 echo "== baseline suite WITH change"
 /venv/bin/python /verif/tools/baseline.py "$wt" 2>&1 | grep -v WARNING | tee "$d/suite_with.out"
 echo "== $prop quick check against patched sources"
